@@ -38,7 +38,15 @@ def check_input(p, src, kind, col):
     except Exception as e:  # generator fault
         col.label("harness:input-eval-failed:" + type(e).__name__)
         return
-    k, r = tl.call(tl.unmarshal, p.T, x)
+    # every route to the unmarshaller is judged: the function, the routine object, the codec's own unmarshal step
+    route = ("function", "routine", "codec-unmarshal")[len(src) % 3]
+    col.label("route:" + route)
+    if route == "function":
+        k, r = tl.call(tl.unmarshal, p.T, x)
+    elif route == "routine":
+        k, r = tl.call(lambda: tl.unmarshaller(p.T)(x))
+    else:
+        k, r = tl.call(lambda: tl.codec(p.T).unmarshal(x))
     if k == "exc":
         col.label("outcome:raised")
         if isinstance(r, RecursionError):
